@@ -35,6 +35,14 @@ ASSUMPTIONS = ["models: SCoda.tokeniseCore/detokenise/vocabSeq + extract glue (m
 def has_tail(tracks):
     """D15: a note still sounds after the end of the bar that contains the last event onset/cap"""
     notes, sigs, caps, wf = piece_of_tracks(tracks)
+    # the tokeniser works on the *merged* piece: a trailing rest leaves a cap (INTERNAL) message only when it reaches past the
+    # last message of every track — a rest that ends before another track's final note-off moves no clock
+    last_msg, longest = 0, 0
+    for t in tracks:
+        timed, dur = rel_timed(t)
+        last_msg = max([last_msg] + [x for x, _ in timed])
+        longest = max(longest, dur)
+    caps = [longest] if longest > last_msg else []
     last = max([on for ns in notes for (p, on, d, v) in ns] + [t for t, _, _ in sigs] + caps + [0])
     ends = bar_grid(sigs, last) or []
     t_end = ends[-1] if ends else 0
